@@ -50,9 +50,15 @@ class SymH:
         from . import np as snp
 
         self.np = snp
+        from .scipy import stats as sstats
+
+        self.stats = sstats
         self.inputs = {}
         self.float_atoms = []
         self.notes = []
+
+    def sqrt(self, x):
+        return box(core.r_sqrt(raw(x)))
 
     # ---- inputs
     def real(self, name, float_atom=True):
@@ -224,6 +230,9 @@ class ConcH:
 
         self.sa = sa
         self.np = np
+        import scipy.stats as _st
+
+        self.stats = _st
         self.w = witness
         self.tol = tol
         self.failed = []
@@ -321,6 +330,9 @@ class ConcH:
 
     def abs(self, x):
         return abs(x)
+
+    def sqrt(self, x):
+        return math.sqrt(x) if x >= 0 else math.nan
 
     def is_nan(self, x):
         try:
